@@ -369,6 +369,14 @@ func (s *Server) newSocket(
 		socket.close(ReasonTransportError, err)
 		return nil
 	}
+
+	// The server might have been closed after `ServeHTTP` checked `IsClosed`, in which case
+	// `Close` might not have seen this socket in the store. Don't leave a socket open on a closed server.
+	if s.IsClosed() {
+		s.debug.Log("Server was closed during the handshake. Closing the socket")
+		socket.Close()
+		return nil
+	}
 	return socket
 }
 
